@@ -192,7 +192,7 @@ def xml_seed_dir(ctx, maxsize=100000):
 def C06(ctx):
     jobs = []
     for i in ("0", "1"):
-        jobs.append(dict(harness="c06", aliases=["c06_xmlmut"], tag="c06-imp%s" % i, cases=(250, 8000), workers=(4, 5), max_ops=6, env={"HWLOC_LIBXML_IMPORT": i, "HWLOC_LIBXML_EXPORT": i}))
+        jobs.append(dict(harness="c06", aliases=["c06_xmlmut"], tag="c06-imp%s" % i, cases=(700, 9000), workers=(4, 5), max_ops=6, env={"HWLOC_LIBXML_IMPORT": i, "HWLOC_LIBXML_EXPORT": i}))
     std_check_parallel(ctx, jobs)
     sd, seeds = xml_seed_dir(ctx)
     os.makedirs(os.path.join(ctx.work, "fztmp"), exist_ok=True)
